@@ -158,6 +158,15 @@ BuildUser ==
      \/ \E e \in {"buildpack", "layer"} :
           /\ cfg' = [cfg EXCEPT !.berror = e, !.pre = Yes(pre)] /\ pc' = "Exit"
           /\ out' = [out EXCEPT !.userbuild = 1, !.exit = "err", !.onerror = "1", !.telemetry = "error"]
+     \* the result is fine but one of the files it asks for cannot be written (something that is no
+     \* regular file sits in its place): an error like any other, whichever file it is
+     \/ \E la \in {"yes", "no"}, st \in {"yes", "no"}, bs \in SbomIds, ls \in SbomIds :
+          \E f \in (IF la # "no" THEN {"launch.toml"} ELSE {}) \cup SbomFiles("build", SbomSetOf(bs)) \cup SbomFiles("launch", SbomSetOf(ls)) :
+            /\ ~pre
+            /\ cfg' = [cfg EXCEPT !.berror = "none", !.launch = la, !.storeout = st, !.bsbom = bs, !.lsbom = ls,
+                                  !.pre = "blocked:" \o f]
+            /\ pc' = "Exit"
+            /\ out' = [out EXCEPT !.userbuild = 1, !.exit = "err", !.onerror = "1", !.telemetry = "error"]
      \* a part of the result may be provided with content ("yes"), provided but empty
      \* ("empty": still provided, so still written) or not provided ("no")
      \/ \E la \in {"yes", "empty", "no"}, st \in {"yes", "empty", "no"}, bs \in SbomIds, ls \in SbomIds :
@@ -205,7 +214,7 @@ ErrorHandledOnce ==
 \* build: outputs exactly for the provided parts; exit 0 only then
 BuildWritesExactlyProvided ==
   (AtExit /\ cfg.exe = "build") =>
-     /\ (out.exit = "0") = (cfg.berror = "none")
+     /\ (out.exit = "0") = (cfg.berror = "none" /\ cfg.pre \in {"yes", "no"})
      /\ (out.exit # "0") => out.files = {}
      /\ (out.exit = "0") =>
           /\ ("launch.toml" \in out.files) = (cfg.launch \in {"yes", "empty"})
